@@ -730,6 +730,17 @@ func (ev *Env) call(x *ECall) SVal {
 			return SBool{True} // contract mentioned inside a lemma: no allocation state
 		}
 		return SBool{BVCmp("bvuge", s.Reg, base.alloc)}
+	case "allocated":
+		// the slice's region was allocated before the current program point
+		v := ev.eval(x.Args[0])
+		sl, ok := v.(SSlice)
+		if !ok || sl.Reg == nil {
+			sfail("allocated(slice)")
+		}
+		if ev.st.alloc == nil {
+			return SBool{True}
+		}
+		return SBool{BVCmp("bvult", sl.Reg, ev.st.alloc)}
 	case "sameslice":
 		a, aok := ev.eval(x.Args[0]).(SSlice)
 		b, bok := ev.eval(x.Args[1]).(SSlice)
